@@ -214,6 +214,10 @@ def check_history(world, tree, runs, gt_snap, exp, label):
             for p in owners:
                 if p not in processed:
                     processed.append(p)
+        # ... or when outputs of it appeared that were not there before (independent of any seam)
+        for p in ids:
+            if p not in processed and any(f in after and f not in before for fs in exp[p].values() for f in fs):
+                processed.append(p)
         killed = proc.exit == 'killed'
         if killed and 0 < proc.writes_done:
             crashed_inside = True
